@@ -27,9 +27,32 @@ NOTES = {
     "C20": ("C20", "caught as delivered"),
 }
 
+NOTES2 = {
+    "C02": ("C02", "caught as delivered"),
+    "C03": ("C03", "MISSED at first: needs a log that reaches segment 10 (file-name order puts 10 before 9); long crash histories whose tail crosses the segment 9/10 boundary on the same keys were added - caught"),
+    "C04": ("C04", "MISSED at first: needs one thread's put racing another thread's put AND removal of the same key and content; the family 'one operation against a thread of two operations on the same key' (DFS, <= 2 pre-emptions) was added - caught"),
+    "C05": ("C05", "caught as delivered"),
+    "C08": ("C08", "MISSED at first: only the EMPTY blob escapes verification; the planted-corruption catalogue now corrupts / resizes every content class (0, 1, 8192, 70000 bytes) on its own - caught"),
+    "C09": ("C09", "caught as delivered"),
+    "C10": ("C10", "caught as delivered"),
+    "C14": ("C14", "caught as delivered"),
+    "C15": ("C15", "MISSED at first: a re-entrant read on the error path of a read of a key whose blob is missing, with a writer really queued in state.write(); forced schedules (the writer blocks inside the lock) for readers parked at the blob open, with intact and with missing blobs, were added - caught"),
+    "C20": ("C20", "MISSED at first: the log only becomes malformed after a failed open of the next segment file; C20 now also judges the fault histories (well-formedness after every failed call) - caught"),
+    "C01": ("C01", "caught as delivered"), "C06": ("C06", "caught as delivered"), "C07": ("C07", "caught as delivered"),
+    "C11": ("C11", "caught as delivered"), "C12": ("C12", "caught as delivered"), "C13": ("C13", "caught as delivered"),
+    "C16": ("C16", "caught as delivered"), "C17": ("C17", "caught as delivered"), "C18": ("C18", "caught as delivered"),
+    "C19": ("C19", "caught as delivered"),
+}
+import sys
+ROUND = sys.argv[1] if len(sys.argv) > 1 else "1"
+BASE = "/tmp/mut" if ROUND == "1" else "/tmp/mut2"
+SUFFIX = "" if ROUND == "1" else "-r2"
+if ROUND != "1":
+    NOTES = {k: v for k, v in NOTES2.items() if len(sys.argv) < 3 or k in sys.argv[2:]}
+
 for pid, (check, note) in sorted(NOTES.items()):
-    src = f"/tmp/mut/out/{pid}"
-    conf = f"/tmp/mut/confirm_{pid}.json"
+    src = f"{BASE}/out/{pid}"
+    conf = f"{BASE}/confirm_{pid}.json"
     if not (os.path.exists(src) and os.path.exists(conf)):
         print("skip", pid)
         continue
@@ -41,7 +64,7 @@ for pid, (check, note) in sorted(NOTES.items()):
     if not (c["demo_fails_with_change"] and c["demo_passes_without"] and c["baseline_70_pass"]):
         print("NOT CONFIRMED", pid, c)
         continue
-    dst = f"/verif/seeded/{pid}"
+    dst = f"/verif/seeded/{pid}{SUFFIX}"
     os.makedirs(dst, exist_ok=True)
     shutil.copy(os.path.join(src, "patch.diff"), dst)
     for f in os.listdir(src):
@@ -50,7 +73,7 @@ for pid, (check, note) in sorted(NOTES.items()):
     meta = json.load(open(os.path.join(src, "meta.json")))
     meta["property"] = pid
     meta["confirmed_by_me"] = {
-        "worktree": f"/tmp/mut/{pid} (scratch git worktree of /repo at the repaired HEAD, removed afterwards)",
+        "worktree": f"{BASE}/{pid} (scratch git worktree of /repo at the repaired HEAD, removed afterwards)",
         "demo_fails_with_change": True, "demo_passes_without_change": True, "baseline_70_tests_pass_with_change": True,
         "commands": ["cargo test --offline --test demo_" + pid.lower() + "   (with the change: FAILED)",
                      "git apply -R patch.diff; cargo test --offline --test demo_" + pid.lower() + "   (ok); git apply patch.diff",
